@@ -64,27 +64,28 @@ proof { ax_obeys(); ax_rv_lits(); lemma_gd_general(it, discount); }""",
 ensures
     final(avg_strat)@.len() == old(avg_strat)@.len(),
     // gamma == +inf: everything forgotten
-    feq(self.strat, finf()) ==> forall|i: int| 0 <= i < old(avg_strat)@.len() ==> #[trigger] final(avg_strat)@[i] == 0.0f64, // @ob C08.V.discount_average_strat.inf
+    feq(self.strat, finf()) ==> forall|i: int| 0 <= i < old(avg_strat)@.len() ==> rv(#[trigger] final(avg_strat)@[i]) == 0real, // @ob C08.V.discount_average_strat.inf
     // 0 < gamma < inf: every entry times ONE ratio (t / (t + 1))^gamma
     !feq(self.strat, finf()) && fgt(self.strat, 0.0f64) ==> forall|i: int| 0 <= i < old(avg_strat)@.len() ==>
-        #[trigger] final(avg_strat)@[i] == fmul(old(avg_strat)@[i], fpowf(fdiv(u64_to_f64(it), fadd(u64_to_f64(it), 1.0f64)), self.strat)), // @ob C08.V.discount_average_strat.ratio
+        rv(#[trigger] final(avg_strat)@[i]) == rv(old(avg_strat)@[i]) * rpow((it as real) / (it as real + 1real), rv(self.strat)), // @ob C08.V.discount_average_strat.ratio
     // gamma == 0 (or negative): untouched
     !feq(self.strat, finf()) && !fgt(self.strat, 0.0f64) ==> final(avg_strat)@ == old(avg_strat)@, // @ob C08.V.discount_average_strat.zero""",
-                 entry="broadcast use fl;\nproof { ax_obeys(); }\nlet ghost s0 = avg_strat@;\nlet ghost n = avg_strat@.len();",
+                 entry="broadcast use fl; broadcast use ideal; broadcast use ideal_casts;\nproof { ax_obeys(); ax_rv_lits(); }\nlet ghost s0 = avg_strat@;\nlet ghost n = avg_strat@.len();",
                  loops={
                      0: dict(kind="for", binder="it0", head="""invariant
     it0.snapshot@.remaining().len() == n, 0 <= it0.index@ <= n,
-    forall|i: int| 0 <= i < it0.index@ ==> *final(#[trigger] it0.snapshot@.remaining()[i]) == 0.0f64,
+    forall|i: int| 0 <= i < it0.index@ ==> rv(*final(#[trigger] it0.snapshot@.remaining()[i])) == 0real,
 ensures
-    forall|i: int| 0 <= i < n ==> *final(#[trigger] it0.snapshot@.remaining()[i]) == 0.0f64,""",
-                             body_start="broadcast use fl;\nproof { ax_obeys(); }"),
+    forall|i: int| 0 <= i < n ==> rv(*final(#[trigger] it0.snapshot@.remaining()[i])) == 0real,""",
+                             body_start="broadcast use fl; broadcast use ideal;\nproof { ax_obeys(); ax_rv_lits(); }"),
                      1: dict(kind="for", binder="it1", head="""invariant
     it1.snapshot@.remaining().len() == n, 0 <= it1.index@ <= n,
     forall|i: int| 0 <= i < n ==> *(#[trigger] it1.snapshot@.remaining()[i]) == s0[i],
-    forall|i: int| 0 <= i < it1.index@ ==> *final(#[trigger] it1.snapshot@.remaining()[i]) == fmul(s0[i], ratio),
+    rv(ratio) == rpow((it as real) / (it as real + 1real), rv(self.strat)),
+    forall|i: int| 0 <= i < it1.index@ ==> rv(*final(#[trigger] it1.snapshot@.remaining()[i])) == rv(s0[i]) * rv(ratio),
 ensures
-    forall|i: int| 0 <= i < n ==> *final(#[trigger] it1.snapshot@.remaining()[i]) == fmul(s0[i], ratio),""",
-                             body_start="broadcast use fl;\nproof { ax_obeys(); }"),
+    forall|i: int| 0 <= i < n ==> rv(*final(#[trigger] it1.snapshot@.remaining()[i])) == rv(s0[i]) * rv(ratio),""",
+                             body_start="broadcast use fl; broadcast use ideal;\nproof { ax_obeys(); ax_rv_lits(); }"),
                  }),
             dict(path="fn discount_cum_regret", vis="pub ", obligation="C08.V.discount_cum_regret", n_loops=1,
                  sig_subst=[(r"fn discount_cum_regret<R: \?Sized>\(&self, it: u64, cum_reg: &mut R\)\s*where\s*for<'a> &'a mut R: IntoFloatsMut<'a>,",
@@ -96,21 +97,21 @@ ensures
     final(cum_reg)@.len() == old(cum_reg)@.len(),
     // positive cumulative regrets are multiplied by the factor of alpha, negative ones by the factor
     // of beta (both for THIS iteration number), zeros stay
-    forall|i: int| 0 <= i < old(cum_reg)@.len() ==> #[trigger] final(cum_reg)@[i] ==
-        (if fgt(old(cum_reg)@[i], 0.0f64) { fmul(old(cum_reg)@[i], gd_spec(it, self.pos_regret)) }
-         else if flt(old(cum_reg)@[i], 0.0f64) { fmul(old(cum_reg)@[i], gd_spec(it, self.neg_regret)) }
-         else { old(cum_reg)@[i] }), // @ob C08.V.discount_cum_regret""",
-                 entry="broadcast use fl;\nproof { ax_obeys(); ax_mutref_cmp(); }\nlet ghost s0 = cum_reg@;\nlet ghost n = cum_reg@.len();",
+    forall|i: int| 0 <= i < old(cum_reg)@.len() ==> rv(#[trigger] final(cum_reg)@[i]) ==
+        (if rv(old(cum_reg)@[i]) > 0real { rv(old(cum_reg)@[i]) * rv(gd_spec(it, self.pos_regret)) }
+         else if rv(old(cum_reg)@[i]) < 0real { rv(old(cum_reg)@[i]) * rv(gd_spec(it, self.neg_regret)) }
+         else { rv(old(cum_reg)@[i]) }), // @ob C08.V.discount_cum_regret""",
+                 entry="broadcast use fl; broadcast use ideal;\nproof { ax_obeys(); ax_rv_lits(); ax_mutref_cmp(); }\nlet ghost s0 = cum_reg@;\nlet ghost n = cum_reg@.len();",
                  loops={0: dict(kind="for", binder="it0", head="""invariant
     it0.snapshot@.remaining().len() == n, 0 <= it0.index@ <= n,
     pos == gd_spec(it, self.pos_regret), neg == gd_spec(it, self.neg_regret),
     forall|i: int| 0 <= i < n ==> *(#[trigger] it0.snapshot@.remaining()[i]) == s0[i],
-    forall|i: int| 0 <= i < it0.index@ ==> *final(#[trigger] it0.snapshot@.remaining()[i]) ==
-        (if fgt(s0[i], 0.0f64) { fmul(s0[i], pos) } else if flt(s0[i], 0.0f64) { fmul(s0[i], neg) } else { s0[i] }),
+    forall|i: int| 0 <= i < it0.index@ ==> rv(*final(#[trigger] it0.snapshot@.remaining()[i])) ==
+        (if rv(s0[i]) > 0real { rv(s0[i]) * rv(pos) } else if rv(s0[i]) < 0real { rv(s0[i]) * rv(neg) } else { rv(s0[i]) }),
 ensures
-    forall|i: int| 0 <= i < n ==> *final(#[trigger] it0.snapshot@.remaining()[i]) ==
-        (if fgt(s0[i], 0.0f64) { fmul(s0[i], pos) } else if flt(s0[i], 0.0f64) { fmul(s0[i], neg) } else { s0[i] }),""",
-                                body_start="broadcast use fl;\nproof { ax_obeys(); ax_mutref_cmp(); }")}),
+    forall|i: int| 0 <= i < n ==> rv(*final(#[trigger] it0.snapshot@.remaining()[i])) ==
+        (if rv(s0[i]) > 0real { rv(s0[i]) * rv(pos) } else if rv(s0[i]) < 0real { rv(s0[i]) * rv(neg) } else { rv(s0[i]) }),""",
+                                body_start="broadcast use fl; broadcast use ideal;\nproof { ax_obeys(); ax_rv_lits(); ax_mutref_cmp(); }")}),
         ]),
     ],
 )
